@@ -168,6 +168,32 @@ func withHolds(r *vc.Rand, sc string, up map[byte]byte, rel map[byte]byte) strin
 
 // ---------------------------------------------------------------- TCP generators
 
+// kind pairs (A = local application side, B = tunnel side); the production shape — a socket with
+// CloseWrite against iocopy.NewReadWriteCloser(conn, conn, closeFn) — is the most frequent one,
+// every other combination of the four kinds follows in rotation.
+var kindPairs = func() [][2]string {
+	ks := []string{"cw", "same", "split", "none"}
+	var out [][2]string
+	for _, a := range ks {
+		for _, b := range ks {
+			out = append(out, [2]string{a, b}, [2]string{"cw", "same"})
+		}
+	}
+	return out
+}()
+
+var kindCounter int
+
+func tcpLine(a, b, sc string) string {
+	kp := kindPairs[kindCounter%len(kindPairs)]
+	kindCounter++
+	return fmt.Sprintf("tcp A %s %s B %s %s s %s", kp[0], a, kp[1], b, sc)
+}
+
+func tcpLineK(ka, a, kb, b, sc string) string {
+	return fmt.Sprintf("tcp A %s %s B %s %s s %s", ka, a, kb, b, sc)
+}
+
 func genTCP(rn *runner, r *vc.Rand, thorough bool) {
 	type shape struct {
 		chunks []string
@@ -195,9 +221,25 @@ func genTCP(rn *runner, r *vc.Rand, thorough bool) {
 				for i, c := range b.chunks { // distinct payloads per direction
 					bl[i] = strings.ReplaceAll(c, "6", "7")
 				}
-				rn.add(fmt.Sprintf("tcp A %s B %s s %s", epStr(a.tail, a.fused, -1, false, a.chunks),
+				rn.add(tcpLine(epStr(a.tail, a.fused, -1, false, a.chunks),
 					epStr(b.tail, b.fused, -1, false, bl), sc), "tcp:interleave-all")
 			}
+		}
+	}
+	// (1c) every pair of endpoint kinds x every interleaving, for the half-close orders that matter: one side
+	// reaches EOF first while the other still has data to send (then the reverse), with and without slow Writes
+	for _, ka := range []string{"cw", "same", "split", "none"} {
+		for _, kb := range []string{"cw", "same", "split", "none"} {
+			a := epStr("eof", false, -1, false, []string{"6162"})
+			b := epStr("eof", false, -1, false, []string{"7172", "7374"})
+			for _, sc := range interleavings('a', 'b', 2, 3) {
+				rn.add(tcpLineK(ka, a, kb, b, sc), "tcp:kinds-all")
+				rn.add(tcpLineK(ka, b, kb, a, strings.Map(func(r rune) rune { return 'a' + 'b' - r }, sc)), "tcp:kinds-all")
+			}
+			for _, sc := range []string{"aaBbyb", "Aaxbbab", "aAxaBbybb", "bBaay"} {
+				rn.add(tcpLineK(ka, a, kb, b, sc), "tcp:kinds-all")
+			}
+			rn.add(tcpLineK(ka, epStr("err", true, -1, false, []string{"6162", "63"}), kb, epStr("eof", false, -1, false, []string{"7172", "73", "74"}), "aabbbb"), "tcp:kinds-all")
 		}
 	}
 	// (2) faults: refused writes at every index, full close (writes refused once the side's tail was seen)
@@ -230,7 +272,7 @@ func genTCP(rn *runner, r *vc.Rand, thorough bool) {
 		if i%2 == 1 {
 			sc = withHolds(r, sc, map[byte]byte{'a': 'A', 'b': 'B'}, map[byte]byte{'a': 'x', 'b': 'y'})
 		}
-		rn.add(fmt.Sprintf("tcp A %s B %s s %s", a, b, sc), "tcp:faults-random")
+		rn.add(tcpLine(a, b, sc), "tcp:faults-random")
 	}
 	// (2b) slow sinks: a Write of one direction stays in progress (the sink reads the relay's buffer only
 	// when it completes) while the other direction runs, half-closes, finishes, gets refused
@@ -245,7 +287,7 @@ func genTCP(rn *runner, r *vc.Rand, thorough bool) {
 	}
 	// a chunk larger than the copy buffer: the second piece is read while the Write of the first is still in progress elsewhere
 	for _, sc := range []string{"AbBxya", "ABxyAbxb", "AbbbxAx"} {
-		rn.add(fmt.Sprintf("tcp A %s B %s s %s", epStr("eof", false, -1, false, []string{"z40000x3"}),
+		rn.add(tcpLine(epStr("eof", false, -1, false, []string{"z40000x3"}),
 			epStr("eof", false, -1, false, []string{"7172", "z33000x9"}), sc), "tcp:slow-write")
 	}
 	for _, p := range pairs {
@@ -257,7 +299,7 @@ func genTCP(rn *runner, r *vc.Rand, thorough bool) {
 					k = 120
 				}
 				for _, sc := range sample(r, all, k) {
-					rn.add(fmt.Sprintf("tcp A %s B %s s %s", p.a, p.b, sc), "tcp:slow-write")
+					rn.add(tcpLine(p.a, p.b, sc), "tcp:slow-write")
 				}
 			}
 		}
@@ -266,7 +308,7 @@ func genTCP(rn *runner, r *vc.Rand, thorough bool) {
 	for _, sz := range []int{32767, 32768, 32769, 70000} {
 		a := epStr("eof", false, -1, false, []string{fmt.Sprintf("z%dx%d", sz, sz%251), "0102"})
 		b := epStr("eof", sz%2 == 0, -1, false, []string{"aabb", fmt.Sprintf("z%dx7", sz/2)})
-		rn.add(fmt.Sprintf("tcp A %s B %s s %s", a, b, vc.Pick(r, []string{"-", "ab", "bbbbaaaa", "abababab"})), "tcp:buffer-boundary")
+		rn.add(tcpLine(a, b, vc.Pick(r, []string{"-", "ab", "bbbbaaaa", "abababab"})), "tcp:buffer-boundary")
 	}
 }
 
